@@ -8,7 +8,10 @@ def run(ctx: Ctx) -> int:
     n = ctx.pick(120, 1500)
     nfixed = 7
     jobs = e4_check.jobs_for(ctx, "c03", n, batch=3, timeout=ctx.pick(240, 1200), total=n + nfixed)
-    jobs += e4_check.jobs_for(ctx, "c03", ctx.pick(3, 12), batch=3, timeout=ctx.pick(120, 600), region="hoist-order", key=KEY_H)
+    from lib import e4_corpus
+    want = ctx.pick(3, 12)
+    have = len(e4_corpus.corpus("c03", want, ctx.seed, "hoist-order"))
+    jobs += e4_check.jobs_for(ctx, "c03", want, batch=3, timeout=ctx.pick(120, 600), region="hoist-order", key=KEY_H, total=have)
     ctx.functions_encoded = ["cfg/builder.py: CFGBuilder.build/visit_* (Assign, AugAssign, If, While, For, Break, Continue, Return, FunctionDef, Expr), ExprBuilder (NamedExpr, IfExp, "
                              "short-circuit temporaries, UnaryOp folding), BranchBuilder (BoolOp, Compare chains, not, IfExp, constants), template_replace for `for`",
                              "cfg/cfg.py: CFG.new_bb/link/dummy_link, pruning of unreachable blocks; cfg/bb.py: BB edge convention",
